@@ -54,10 +54,27 @@ def run(tier, seed, replay):
                                    {"targets": "a,ip + garbage", "distinct": g2.distinct, "edges": len(graph2.edges), "paths": len(paths2), "uncovered_edges": left2}]
     n1, s1, d1 = udprelay.replay(v, binary, behs, variants, seed, "isolation replay")
     n2, s2, d2 = udprelay.replay(v, binary, [graph2.behaviour(p) for p in paths2], variants[:1], seed, "isolation replay (cache hits, garbage)")
+    # (3) session-id keyed relay (Shadowsocks 2022 server): the client moves to another address mid-session, forged/replayed
+    #     datagrams with the session's id arrive from a foreign address; replies must follow the latest authenticated address
+    g3, _ = udprelay.model(dict(Sess='{"s1"}', Targets='{"ip"}', Domains="{}", Rejected="{}", MaxSend=2, ChanCap=2, MaxReply=2, MaxTimer=0, Keyed='"sid"'),
+                           props=False, edges=True)
+    graph3 = udprelay.urgent_filter(vlib.Graph(g3), drop=("StopBegin",))
+    paths3, left3 = graph3.cover(seed=seed, max_len=40, max_paths=None if big else 400, prefer=lambda e: e[1]["n"] in ("Forged", "Move", "DlSendBack"))
+    svar = [{"server": "ss2022", "batchMode": "no", "natTimeout": "61s"}]
+    n3, s3, d3 = udprelay.replay(v, binary, [graph3.behaviour(p) for p in paths3], svar, seed, "session relay replay")
+    g4, _ = udprelay.model(dict(Sess='{"s1","s2"}', Targets='{"ip"}', Domains="{}", Rejected="{}", MaxSend=1, ChanCap=1, MaxReply=1, MaxTimer=0, Keyed='"sid"'),
+                           props=False, edges=True)
+    graph4 = udprelay.urgent_filter(vlib.Graph(g4), drop=("StopBegin",))
+    paths4, left4 = graph4.cover(seed=seed, max_len=40, max_paths=None if big else 200, prefer=lambda e: e[1]["n"] in ("Forged", "Move", "DlSendBack"))
+    n4, s4, d4 = udprelay.replay(v, binary, [graph4.behaviour(p) for p in paths4], [{"server": "ss2022", "batchMode": "sendmmsg", "natTimeout": "61s"}], seed,
+                                 "session relay replay")
+    v.coverage["replay_graphs"] += [{"relay": "session (ss2022), move+forged", "distinct": g3.distinct, "edges": len(graph3.edges), "paths": len(paths3), "uncovered_edges": left3},
+                                    {"relay": "session (ss2022) sendmmsg, 2 sessions", "distinct": g4.distinct, "edges": len(graph4.edges), "paths": len(paths4), "uncovered_edges": left4}]
+    n1, s1, d1 = n1 + n3 + n4, s1 + s3 + s4, max(d1, d3, d4)
     v.coverage["traces_validated_against_impl"] = n1 + n2
     v.coverage["replayed_steps"] = s1 + s2
     v.coverage["distinct_step_classes"] = max(d1, d2)
     v.coverage["exhaustive"] = big and left == 0
-    v.assumptions += ["kernel UDP semantics on loopback", "SOCKS5 server + direct client NAT relays (generic and sendmmsg); other protocol pairs share the relay code and "
-                      "differ only in the packers (C05)", "the resolver answers each name with its own address; resolution order is scripted by the gates"]
+    v.assumptions += ["kernel UDP semantics on loopback", "SOCKS5 server (NAT relay) and Shadowsocks 2022 server (session relay) with the direct client, generic and sendmmsg paths; "
+                      "other protocol pairs share the relay code and differ only in the packers (C05)", "the resolver answers each name with its own address; resolution order is scripted by the gates"]
     return v.finish()
